@@ -411,6 +411,16 @@ func init() {
 	check.Replayers["enum:C15/fault"] = faultReplayer(c15Oracle)
 	check.Replayers["enum:C17/fault"] = faultReplayer(c17Oracle)
 	check.Replayers["enum:C17/fault-close"] = faultReplayer(c17Oracle)
+	check.Replayers["enum:C17/dist-slow"] = func(f *check.Failure) (string, string) {
+		cs := *f.Case
+		fl := cs.Faults
+		cs.Faults = nil
+		core.DistFaults = map[int][]mstore.Fault{fl[0].Series: {{Kind: fl[0].Kind, Series: -1, Nth: 0, Action: "slow"}}, fl[1].Series: {{Kind: fl[1].Kind, Series: -1, Nth: 0, Action: fl[1].Action}}}
+		o := core.RunEngine(&cs, storeFor(&cs))
+		core.DistFaults = nil
+		fmt.Printf("result %s closes=%v openAtReturn=%d fired=%v\n", o.Res, o.CloseCnt, o.OpenAtReturn, o.Fired)
+		return c17Oracle(&cs, nil, fl[1], faultObs{out: o})
+	}
 	check.Replayers["enum:C17/labels"] = func(f *check.Failure) (string, string) {
 		o := core.RunEngine(f.Case, storeFor(f.Case))
 		if len(o.LabelsModified) > 0 {
@@ -450,6 +460,7 @@ func init() {
 		enumerateFaults(c, "C17", "C17/fault-close", map[string]bool{"close": true}, []string{"error", "panic-runtime", "cancel"}, c17Oracle, windows[:2], false)
 		c17Histories(c)
 		c17Labels(c)
+		c17DistSlow(c)
 	})
 	check.Register("C14/cancel", func(c *check.Ctx) {
 		enumerateFaults(c, "C14", "C14/cancel", allKinds, []string{"cancel", "block"}, c14EnumOracle, windows, true)
@@ -569,6 +580,52 @@ func c17Labels(c *check.Ctx) {
 				c.Rep.Outcomes["C17/labels:modified"]++
 				cp := *cs
 				c.Fail(check.Failure{Prop: "C17", Kind: "enum", Sub: "C17/labels", Symptom: "storage-data-modified", Detail: "storage label sets changed by the query: " + strings.Join(o.LabelsModified, "; "), Case: &cp})
+			}
+		}
+	}
+}
+
+// c17DistSlow: a distributed engine over two remote engines; one remote engine is slow in
+// a storage call while the other one fails: when Exec returns no querier of either may be
+// open (and each was closed once).
+func c17DistSlow(c *check.Ctx) {
+	data := faultData()
+	for _, q := range []string{`sum by (l) (a)`, `a`, `sum(a)`, `max(a) + min(b)`, `rate(a[1m])`} {
+		for _, w := range []core.Window{core.Range(10000, 30000, 12), core.Instant(45000)} {
+			for _, slowKind := range []string{"querier", "select", "set-next", "iterator"} {
+				for _, failKind := range []string{"querier", "select", "iterator"} {
+					for _, act := range []string{"error", "panic-runtime"} {
+						for slowAt := 0; slowAt < 2; slowAt++ {
+							c.Rep.Transitions++
+							if !c.Mine() {
+								continue
+							}
+							if c.Expired() {
+								return
+							}
+							cs := &core.Case{Q: q, Data: data, W: w, O: core.Opts{Optimizers: "none"}, NDist: 2, Dist: []int{0, 1, 0, 1, 0, 1, 0, 1}, Note: "C17/dist-slow"}
+							df := map[int][]mstore.Fault{slowAt: {{Kind: slowKind, Series: -1, Nth: 0, Action: "slow"}}, 1 - slowAt: {{Kind: failKind, Series: -1, Nth: 0, Action: act}}}
+							core.DistFaults = df
+							o := core.RunEngine(cs, storeFor(cs))
+							core.DistFaults = nil
+							c.Rep.States++
+							c.Rep.Evaluations++
+							c.Rep.Traces++
+							if len(o.Fired) > 0 {
+								c.Rep.Nontrivial++
+							}
+							sym, det := c17Oracle(cs, nil, mstore.Fault{Kind: failKind, Action: act}, faultObs{out: o})
+							if sym == "" {
+								c.Rep.Outcomes["C17/dist-slow:ok"]++
+								continue
+							}
+							c.Rep.Outcomes["C17/dist-slow:"+sym]++
+							cp := *cs
+							cp.Faults = []mstore.Fault{{Kind: slowKind, Series: slowAt, Action: "slow"}, {Kind: failKind, Series: 1 - slowAt, Action: act}}
+							c.Fail(check.Failure{Prop: "C17", Kind: "enum", Sub: "C17/dist-slow", Symptom: sym, Detail: det + fmt.Sprintf(" (remote engine %d slow in %s, remote engine %d: %s in %s)", slowAt, slowKind, 1-slowAt, act, failKind), Case: &cp})
+						}
+					}
+				}
 			}
 		}
 	}
